@@ -200,6 +200,16 @@ func c10(r *core.Run) {
 	oldS := c10Spec("old", "dev0")
 	newS := c10Spec("new", "dev0", "dev1", "dev2")
 	new2S := c10Spec("new2", "dev0", "dev3")
+	// size: one search run in sixteen writes a LARGE Spec (70-300 KiB of
+	// Spec-level environment): write loops, buffering and chunking only differ there
+	if !sweep && src.Bool(1, 16) {
+		n := 1500 + src.Intn(5000)
+		for i := 0; i < n; i++ {
+			newS.ContainerEdits.Env = append(newS.ContainerEdits.Env, fmt.Sprintf("PAD_%05d=%040d", i, i))
+		}
+		r.Knob("large_spec_env_entries", n)
+		r.Probe("large_spec")
+	}
 	if prev == 2 {
 		oldS = newS // previous file identical to the new content
 	}
